@@ -52,6 +52,7 @@ def histgen(rng, oids):
         find_one_and_replace=2, find_one_and_delete=2), ttl=False, date_ids='wide')
     hg.ug.malformed = 0.22
     hg.dollar_values = 0.04
+    hg.slice_proj = 0.05
     return hg
 
 
@@ -83,10 +84,14 @@ def oracle(history, steps):
                           % (k, st.out[1], prev, cur)))
         if st.out[0] == 'err' and k in FAM and cur != prev:
             # known: with return_document=AFTER the read-back (and its projection) runs after
-            # the write, so a projection that is refused leaves the write behind
+            # the write, so a projection whose refusal DEPENDS ON THE DOCUMENT (a $slice of what
+            # the update has turned into a non-array) leaves the write behind.  A projection that
+            # is refused in itself is refused before the write since library commit 7781c66 (the
+            # repaired finding `fam-after-projection-error`): that case is no known class.
             after = k != 'find_one_and_delete' and bool(st.op[6])
             proj = st.op[3] if k != 'find_one_and_delete' else st.op[2]
-            lab = 'fam-after-projection-error' if (after and proj is not None) else 'trace'
+            lab = 'fam-after-projection-on-result' if (
+                after and proj is not None and acceptable_in_itself(proj)) else 'trace'
             fails.append((i, lab, 'failed %s (%s) changed the collection: %r -> %r'
                           % (k, st.out[1], prev, cur)))
         if st.out[0] == 'err' and k in ('find', 'count', 'distinct', 'delete_many') and cur != prev:
@@ -105,6 +110,20 @@ def oracle(history, steps):
         if any(l not in known_labels for (_, l, _) in fails) or len(fails) > 50:
             break
     return fails
+
+
+def acceptable_in_itself(proj):
+    """the projection is not refused whatever the document: applied to an empty document (through
+    find_one on a scratch collection) it does not raise"""
+    import copy
+    import mongomock
+    c = mongomock.MongoClient().db.scratch
+    c.insert_one({})
+    try:
+        c.find_one({}, copy.deepcopy(proj))
+        return True
+    except Exception:  # pylint: disable=broad-except
+        return False
 
 
 def ids_state(state):
@@ -172,4 +191,4 @@ def nontrivial(history, steps):
     return False
 
 
-run, replay, replay_finding = histcheck.module_api(sys.modules[__name__], 1000, 25000)
+run, replay, replay_finding = histcheck.module_api(sys.modules[__name__], 1000, 25000, fixed=True)
